@@ -42,8 +42,34 @@ func openRead(format string, b []byte, dict int) (out []byte, ctorErr, readErr e
 // otherwise the lengths are used in turn (the last one repeats).  What a reader says about a
 // damaged or truncated stream must not depend on how the caller sizes its buffers.
 func openReadSched(format string, b []byte, dict int, sched []int) (out []byte, ctorErr, readErr error, pn *mon.Panic) {
+	out, ctorErr, readErr, _, pn = openReadSchedAfter(format, b, dict, sched)
+	return
+}
+
+// openReadSchedAfter additionally keeps calling Read (up to four times) after the first error
+// and reports whether one of those calls announced a clean end of stream: an error must not turn
+// into a regular end for a caller that reads on.  (More data after an error is not judged.)
+func openReadSchedAfter(format string, b []byte, dict int, sched []int) (out []byte, ctorErr, readErr error, after string, pn *mon.Panic) {
+	var r io.Reader
+	defer func() {
+		if readErr == nil || pn != nil || r == nil {
+			return
+		}
+		p2 := mon.Guard(func() {
+			for k := 0; k < 4; k++ {
+				p := make([]byte, 64)
+				n, err := r.Read(p)
+				if err == io.EOF {
+					after = fmt.Sprintf("Read #%d after the error %q returned a clean end of stream (%d, io.EOF)", k+1, readErr, n)
+					return
+				}
+			}
+		})
+		if p2 != nil {
+			pn = p2
+		}
+	}()
 	pn = mon.Guard(func() {
-		var r io.Reader
 		switch format {
 		case "xz", "xz-multi":
 			r, ctorErr = xz.ReaderConfig{DictCap: 4096}.NewReader(bytes.NewReader(b))
@@ -342,7 +368,8 @@ func checkC05(c *ev.Ctx) {
 				sched = []int{delivered}
 			}
 			var pn *mon.Panic
-			out, cerr, rerr, pn = openReadSched(s.Format, s.B[:j.cut], s.Dict, sched)
+			var after string
+			out, cerr, rerr, after, pn = openReadSchedAfter(s.Format, s.B[:j.cut], s.Dict, sched)
 			if si == 0 {
 				delivered = len(out)
 			}
@@ -369,7 +396,12 @@ func checkC05(c *ev.Ctx) {
 					}
 					return
 				}
-				rejected := (cerr != nil && cerr != io.EOF) || rerr != nil
+				if _, legal := s.Legal[j.cut]; after != "" && !legal && pn == nil {
+			det["what"] = fmt.Sprintf("prefix of %d of %d bytes: %s", j.cut, len(s.B), after)
+			c.Violation("error-then-clean-end:"+s.Format, det)
+			return
+		}
+		rejected := (cerr != nil && cerr != io.EOF) || rerr != nil
 				if !rejected {
 					det["what"] = fmt.Sprintf("prefix of %d of %d bytes of a %s stream is taken as complete: constructor error %v, read ended cleanly after %d of %d content bytes", j.cut, len(s.B), s.Format, cerr, len(out), len(s.Content))
 					bad = true
